@@ -13,12 +13,15 @@ clock). Enumerated, all exhaustively:
  * server faults: in every sequence of three requests of the class representatives, every single request (and every two
    consecutive requests) is received completely and then the connection is dropped without an answer; whatever the client
    transmits afterwards (its own retry, aiohttp's retry of idempotent requests, the next call) is verified like everything else;
- * process restarts: two child processes with identical inputs.
+ * process restarts: two child processes with identical inputs;
+ * rotated credentials: two client objects of one process with the SAME API key and DIFFERENT secrets, used alternately, every
+   ordered pair of three secrets, each request verified under the secret of the client object that sent it.
 
 The server verifies like the exchange does, from the raw request line, headers and body only; Bitstamp nonces are collected
 over EVERYTHING received in a scenario - several client objects, retries, dropped requests - and must be pairwise distinct.
 """
 import asyncio
+import itertools
 import json
 import os
 import random
@@ -52,6 +55,8 @@ ASSUMPTIONS = [
     "the two encoders act per character, so single characters and pairs exhaust their behaviour classes",
     "state a client keeps between requests depends on the previous request only through its class (method, body or not, query "
     "or not, signed / key-only / public): all ordered pairs of the request table and all triples of class representatives",
+    "configurations: one API key, secrets from a set of three (every ordered pair old -> new), both exchanges; every request is "
+    "verified under the secret its own client object was constructed with",
     "server fault = the request is read completely and the connection closed without a response (ServerDisconnectedError); "
     "refused connections, timeouts and resets while the request is being written transmit nothing that could be verified",
 ]
@@ -213,18 +218,20 @@ def scenarios(tier, seed):
         out += [("<triples>", ex, first) for first in _class_reps(ex)]
         out += [("<drop>", ex, first) for first in _class_reps(ex) if _seq_table(ex)[first][1] is not None]
     out.append(("<restart>",))
+    out += [("<rotated>", ex) for ex in ("b", "s")]
     return out
 
 
-def _verify(ex, req, signed, now=None):
+def _verify(ex, req, signed, now=None, secret=None):
+    """secret: the secret of the account of the client object that sent the request (default H.SECRET)."""
     if signed is None:
         return None
     if ex == "b":
-        err = H.verify_binance(req, signed, now=now)
+        err = H.verify_binance(req, signed, now=now, secret=secret)
         if err is None and req["host"] != "api.binance.com":
             err = f"Host header {req['host']}"
         return err
-    return H.verify_bitstamp(req, now=now)
+    return H.verify_bitstamp(req, now=now, secret=secret)
 
 
 def _nonce_violations(res, nonces, rep, what):
@@ -242,12 +249,13 @@ def _nonce_violations(res, nonces, rep, what):
                       f"requests received ({what}); e.g. {nonce} carried by [{first}] and again by [{second}]", rep, size=1)
 
 
-def _clients(session, tb=None):
-    """A fresh Binance and a fresh Bitstamp client object on the given session (tb: factory of a token bucket per client)."""
+def _clients(session, tb=None, secret=None):
+    """A fresh Binance and a fresh Bitstamp client object on the given session (tb: factory of a token bucket per client;
+    secret: the account's secret, default H.SECRET)."""
     from basana.external.binance import client as bcli
     from basana.external.bitstamp import client as scli
-    b = bcli.APIClient(H.KEY, H.SECRET, session=session, config_overrides=H.BINANCE_URL, tb=tb() if tb else None)
-    s = scli.APIClient(H.KEY, H.SECRET, session=session, config_overrides=H.BITSTAMP_URL, tb=tb() if tb else None)
+    b = bcli.APIClient(H.KEY, secret or H.SECRET, session=session, config_overrides=H.BINANCE_URL, tb=tb() if tb else None)
+    s = scli.APIClient(H.KEY, secret or H.SECRET, session=session, config_overrides=H.BITSTAMP_URL, tb=tb() if tb else None)
     return b, s
 
 
@@ -528,6 +536,67 @@ async def _run_drop(sc, tier, res):
     _nonce_violations(res, nonces, rep, "all runs of the scenario, one client object per run")
 
 
+ROTATED_SECRETS = (H.SECRET, "the-rotated-secret/2", "zz")
+
+
+async def _run_rotated(sc, res):
+    """Two client objects of ONE process share the API key but have DIFFERENT secrets (credentials rotated or corrected while
+    the program runs). Every request is verified under the secret of the client object that sent it. Enumerated: every ordered
+    pair of distinct secrets (old, new) x every signed request of the table as the old client's request x every signed class
+    representative as the new client's request; then the old client is used once more (interleaving)."""
+    kind, ex = sc
+    H.patch_time()
+    table = _seq_table(ex)
+    signed_all = [n for n in sorted(table) if table[n][1] is True]
+    reps = [n for n in _class_reps(ex) if table[n][1] is True]
+    srv = H.Server()
+    await srv.start()
+    nonces = []
+    rep = dict(endpoint=kind, sc=list(sc))
+    try:
+        conn = aiohttp.TCPConnector(resolver=H.resolver(srv.port))
+        async with aiohttp.ClientSession(connector=conn) as session:
+            for (old, new), n1, n2 in itertools.product(itertools.permutations(ROTATED_SECRETS, 2), signed_all, reps):
+                c_old, c_new = _clients(session, secret=old), _clients(session, secret=new)
+                bad = None
+                steps = [("old", c_old, old, n1), ("new", c_new, new, n2), ("old", c_old, old, n2), ("new", c_new, new, n1)]
+                for pos, (who, (b, s), secret, n) in enumerate(steps):
+                    fn, signed, cls = table[n]
+                    srv.reqs.clear()
+                    err = None
+                    try:
+                        await fn(b, s)
+                    except Exception as e:  # noqa
+                        err = f"client raised {type(e).__name__}: {e}"
+                    res.transitions += 1
+                    if err is None:
+                        if len(srv.reqs) != 1:
+                            err = f"{len(srv.reqs)} requests received"
+                        else:
+                            err = _verify(ex, srv.reqs[-1], signed, secret=secret)
+                    for req in srv.reqs:
+                        if ex == "s":
+                            nonces.append((req["headers"].get("X-Auth-Nonce"), f"{n} by the {who} client, secrets {old!r} -> {new!r}"))
+                    if err is not None and bad is None:
+                        bad = (pos, who, n, secret, err)
+                res.executions += 1
+                res.validated += 1
+                key = h64((kind, ex, old, new, n1, n2))
+                res.states.add(key)
+                res.nontrivial.add(key)
+                res.outcomes["verified" if bad is None else "rejected"] += 1
+                if bad is not None:
+                    pos, who, n, secret, err = bad
+                    res.violation(f"{PROPERTY}:{'binance' if ex == 'b' else 'bitstamp'}:other-clients-secret:{err.split(' over ')[0][:40]}",
+                                  f"{err} under the secret {secret!r} of the client object that sent it; request #{pos} ({n}) by the {who} "
+                                  f"client; two client objects with the same API key, secrets {old!r} (created first) and {new!r}", rep, size=pos)
+                if not res.samples and bad is None:
+                    res.samples.append(dict(endpoint=kind, secrets=[old, new], requests=[n1, n2, n2, n1]))
+    finally:
+        await srv.stop()
+    _nonce_violations(res, nonces, rep, "client objects with the same API key and different secrets")
+
+
 _RESTART_CHILD = r"""
 import asyncio, json, sys
 sys.path.insert(0, %r)
@@ -655,6 +724,8 @@ def run_scenario(sc, tier):
         asyncio.run(_run_drop(sc, tier, res))
     elif sc[0] == "<restart>":
         _run_restart(res)
+    elif sc[0] == "<rotated>":
+        asyncio.run(_run_rotated(sc, res))
     else:
         asyncio.run(_run(sc[0], tier, res))
     return res
@@ -666,7 +737,7 @@ def replay(rep):
     if name in ("<throttled>", "<decimal-kwargs>"):
         asyncio.run(_run_throttled(res) if name == "<throttled>" else _run_decimal_kwargs(res))
         return [v["message"] for v in res.violations][:5]
-    if name in ("<pairs>", "<triples>", "<drop>", "<restart>"):
+    if name in ("<pairs>", "<triples>", "<drop>", "<restart>", "<rotated>"):
         res = run_scenario(tuple(rep["sc"]), "quick")
         return [v["message"] for v in res.violations][:5]
     if rep.get("value") is None and name not in fixed_endpoints(_Dummy(), _Dummy()):
